@@ -230,6 +230,8 @@ def run(tier, seed):
         fails.append(dict(inputs=dict(program=type(cm).__name__), observed='a name clash was accepted', violated='name-clash-raises'))
       except errors.NameInUseError:
         pass
+      except Exception as e:  # noqa
+        fails.append(dict(inputs=dict(program=type(cm).__name__), observed=f'a name clash is not reported as NameInUseError but ends in {e!r}'[:300], violated='name-clash-raises'))
     # bind / re-bind / unbind
     for pname in ('module-as-field', 'one-instance-two-fields', 'one-instance-two-parents', 'setup-style'):
       cases += 1
